@@ -35,7 +35,7 @@ WORKERS = {"quick": 1, "thorough": 14}
 def gen_cases(ctx):
     rng = ctx.rng
     hi = 8 if ctx.tier == "quick" else 11
-    for i in range(ctx.scale(1200, 20000)):
+    for i in range(ctx.scale(1200, 60000)):
         cls = rng.choice(gen.POSITIVE_CLASSES + ["classic", "flexible"])
         inst = gen.gen_instance(rng, cls, max_jobs=rng.choice([2, 3, 4]),
                                 max_machines=rng.choice([2, 3, 4]),
@@ -43,7 +43,7 @@ def gen_cases(ctx):
         yield {"kind": "walk", "instance": inst, "seed": rng.randrange(2**31),
                "unfiltered_twin": i % 5 == 0}
     if ctx.tier == "thorough":
-        for i in range(ctx.scale(0, 60)):
+        for i in range(ctx.scale(0, 180)):
             inst = gen.gen_instance(rng, "classic", max_jobs=4, max_machines=3)
             if gen.num_ops(inst) <= 12:
                 yield {"kind": "walk", "instance": inst, "seed": 0, "unfiltered_twin": False}
